@@ -87,3 +87,6 @@ Definition key_eqb (a b : Key) : bool :=
   text_eqb (k_id a) (k_id b) && (k_tag a =? k_tag b) && (k_ttl a =? k_ttl b) &&
   (k_flags a =? k_flags b) && (k_proto a =? k_proto b) && (k_alg a =? k_alg b) &&
   text_eqb (k_pubtxt a) (k_pubtxt b).
+
+Definition find_key_by_id (id : text) (ks : list Key) : option Key :=
+  find (fun k => text_eqb (k_id k) id) ks.
